@@ -574,7 +574,10 @@ func parse(expr string, namespaces map[string]string) node {
 	r.nextChar()
 	r.nextItem()
 	p := &parser{r: r, namespaces: namespaces}
-	return p.parseExpression(nil)
+	n := p.parseExpression(nil)
+	// the whole text must have been consumed: anything left over means the expression is malformed
+	checkItem(r, itemEOF)
+	return n
 }
 
 // rootNode holds a top-level node of tree.
